@@ -49,6 +49,7 @@ func (g *graphNode) LoadNeighbours(vstore vectorstore.VectorStore) error {
 	if err != nil {
 		return fmt.Errorf("could not load node neighbours: %w", err)
 	}
+	verifSearchStep()
 	g.neighbours = ns
 	g.isNeighLoaded.Store(true)
 	return nil
